@@ -45,7 +45,7 @@ ASSUMPTIONS = [
 KINDS = ("supervised", "semi", "knn", "unsup")
 
 
-EXPECTED_PROBES = ['persistent_model_reused', 'persistent_model_predicts', 'caller_supplied_distance_matrix', 'result_compared_with_fresh_interpreter', 'call_raises_consistently', 'caller_rewrote_own_buffer_in_place', 'decorated_metric_on_exact_zero', 'model_fitted_on_buffer_with_history', 'same_array_as_both_arguments', 'tiny_magnitudes_present']
+EXPECTED_PROBES = ['non_contiguous_argument', 'persistent_model_reused', 'persistent_model_predicts', 'caller_supplied_distance_matrix', 'result_compared_with_fresh_interpreter', 'call_raises_consistently', 'caller_rewrote_own_buffer_in_place', 'decorated_metric_on_exact_zero', 'model_fitted_on_buffer_with_history', 'same_array_as_both_arguments', 'tiny_magnitudes_present']
 
 SLOW_ARMS = ("fresh",)
 
@@ -75,11 +75,11 @@ def gen_case(rng, arm, tier, k=0):
             # a fold without any class-0 sample (e.g. 1-based labels): legal for every call
             # whose predictions stay within the labels' range
             Ym = [y + 1 for y in Ym]
-        mats.append({"style": style, "X": gen_matrix(rng, n, d, style), "Y": Ym})
+        mats.append({"style": style, "X": gen_matrix(rng, n, d, style), "Y": Ym, "layout": rng.choice(("c", "c", "c", "f", "strided", "cols"))})
     vecs = []
     for _ in range(rng.randint(2, 4)):
         style = rng.choice(("zeros", "zeros", "positive", "generic"))
-        vecs.append({"style": style, "v": [gen_value(rng, style) for _ in range(d)]})
+        vecs.append({"style": style, "v": [gen_value(rng, style) for _ in range(d)], "layout": rng.choice(("c", "c", "strided"))})
     case = {"d": d, "mats": mats, "vecs": vecs}
     # two persistent model objects that are re-used across calls (max_k may exceed what a small
     # matrix supports: such a fit raises, consistently, and the object is used again afterwards)
@@ -163,16 +163,27 @@ def gen_case(rng, arm, tier, k=0):
 class World:
     def __init__(self, case):
         if "labs" in case:  # explicit state (restart server)
-            self.mats = [arr(m).reshape(len(m), case["d"]) for m in case["mats"]]
+            lays = case.get("layouts") or ["c"] * (len(case["mats"]) + len(case["vecs"]))
+            self.layouts = lays
+            made = [lay_out(arr(m).reshape(len(m), case["d"]), lays[i]) for i, m in enumerate(case["mats"])]
+            self.mat_bases = [b for b, _ in made]
+            self.mats = [v for _, v in made]
             self.labs = [iarr(y) for y in case["labs"]]
-            self.vecs = [np.array(v, dtype=np.float64) for v in case["vecs"]]
+            madev = [lay_out(np.array(v, dtype=np.float64), lays[len(case["mats"]) + i]) for i, v in enumerate(case["vecs"])]
+            self.vec_bases = [b for b, _ in madev]
+            self.vecs = [v for _, v in madev]
             self.pres = [arr(p_).reshape(len(p_), len(p_)) for p_ in case.get("pres", [])]
             self.slot_specs = case.get("slots", [])
             self.new_models()
             return
-        self.mats = [arr(m["X"]).reshape(len(m["X"]), case["d"]) for m in case["mats"]]
+        self.layouts = [m.get("layout", "c") for m in case["mats"]] + [v.get("layout", "c") for v in case["vecs"]]
+        made = [lay_out(arr(m["X"]).reshape(len(m["X"]), case["d"]), m.get("layout", "c")) for m in case["mats"]]
+        self.mat_bases = [b for b, _ in made]
+        self.mats = [v for _, v in made]
         self.labs = [iarr(m["Y"]) for m in case["mats"]]
-        self.vecs = [np.array(v["v"], dtype=np.float64) for v in case["vecs"]]
+        madev = [lay_out(np.array(v["v"], dtype=np.float64), v.get("layout", "c")) for v in case["vecs"]]
+        self.vec_bases = [b for b, _ in madev]
+        self.vecs = [v for _, v in madev]
         # caller-owned distance matrices (one per feature matrix), handed to models through the
         # public pre_distances setter
         self.pres = []
@@ -189,9 +200,14 @@ class World:
 
     def clone(self):
         w = World.__new__(World)
-        w.mats = [m.copy() for m in self.mats]
+        w.layouts = self.layouts
+        made = [lay_out(np.array(m), self.layouts[i]) for i, m in enumerate(self.mats)]
+        w.mat_bases = [b for b, _ in made]
+        w.mats = [v for _, v in made]
         w.labs = [y.copy() for y in self.labs]
-        w.vecs = [v.copy() for v in self.vecs]
+        madev = [lay_out(np.array(v), self.layouts[len(self.mats) + i]) for i, v in enumerate(self.vecs)]
+        w.vec_bases = [b for b, _ in madev]
+        w.vecs = [v for _, v in madev]
         w.pres = [p_.copy() for p_ in self.pres]
         w.slot_specs = self.slot_specs
         w.new_models()
@@ -202,7 +218,8 @@ class World:
         self.fitted = [None] * len(self.models)
 
     def buffers(self):
-        return [("mat%d" % i, m) for i, m in enumerate(self.mats)] + [("lab%d" % i, y) for i, y in enumerate(self.labs)] + [("vec%d" % i, v) for i, v in enumerate(self.vecs)] + [("pre%d" % i, p_) for i, p_ in enumerate(self.pres)]
+        # the *owning* buffers: a write outside the view the caller handed over counts too
+        return [("mat%d" % i, m) for i, m in enumerate(self.mat_bases)] + [("lab%d" % i, y) for i, y in enumerate(self.labs)] + [("vec%d" % i, v) for i, v in enumerate(self.vec_bases)] + [("pre%d" % i, p_) for i, p_ in enumerate(self.pres)]
 
     def get(self, r):
         if r[0] == "vec":
@@ -216,6 +233,32 @@ class World:
 
     def bufname(self, r):
         return "vec%d" % (r[1] % len(self.vecs)) if r[0] == "vec" else "mat%d" % (r[1] % len(self.mats))
+
+
+FILL = -7.25  # value of the cells of an owning buffer that lie outside the caller's view
+
+
+def lay_out(a, layout):
+    """(owning buffer, the array the caller passes) for one of the memory layouts:
+    c = C-contiguous, f = Fortran order (rows are strided views), strided = every second row /
+    element of a larger buffer, cols = the leading columns of a wider buffer."""
+    a = np.array(a, dtype=np.float64)
+    if layout == "f" and a.ndim == 2:
+        b = np.asfortranarray(a)
+        return b, b
+    if layout == "strided":
+        if a.ndim == 2:
+            base = np.full((2 * a.shape[0], a.shape[1]), FILL)
+            base[::2] = a
+            return base, base[::2]
+        base = np.full(2 * a.shape[0] + 1, FILL)
+        base[1::2] = a
+        return base, base[1::2]
+    if layout == "cols" and a.ndim == 2:
+        base = np.full((a.shape[0], a.shape[1] + 2), FILL)
+        base[:, : a.shape[1]] = a
+        return base, base[:, : a.shape[1]]
+    return a, a
 
 
 def canon(x):
@@ -483,6 +526,8 @@ def run_case(case):
                 last_touch[name] = lab
             if op[0] == "dist":
                 x, y = live.get(op[3]), live.get(op[4])
+                if not (x.flags.c_contiguous and y.flags.c_contiguous):
+                    bump(out.probes, "non_contiguous_argument")
                 if mclass == "decorated" and (np.any(x == 0.0) or np.any(y == 0.0)):
                     bump(out.probes, "decorated_metric_on_exact_zero")
                 if op[3] == op[4]:
@@ -526,7 +571,7 @@ def run_case(case):
             sample = [pn for pn in pending if pn[4] and pn[1][0] not in ("precompute", "mfit", "mpredict")][-6:]
             for k, op, lab, mclass, ok, a, exc, ver, prep in sample:
                 snap = snapshots[ver]
-                req = {"c07": True, "d": case["d"], "mats": [m.tolist() for m in snap.mats], "labs": [y.tolist() for y in snap.labs], "vecs": [v.tolist() for v in snap.vecs], "pres": [p_.tolist() for p_ in snap.pres], "slots": case.get("slots", []), "op": op}
+                req = {"c07": True, "d": case["d"], "mats": [m.tolist() for m in snap.mats], "labs": [y.tolist() for y in snap.labs], "vecs": [v.tolist() for v in snap.vecs], "pres": [p_.tolist() for p_ in snap.pres], "slots": case.get("slots", []), "layouts": snap.layouts, "op": op}
                 rep = c19.restart_query(req)
                 bump(out.faults, "restart_fresh_interpreter")
                 if "error" in rep:
